@@ -291,6 +291,35 @@ def _inline_defs(e: ast.AST, facts: Optional[G.Facts], depth: int = 3) -> ast.AS
     return ast.fix_missing_locations(Sub().visit(copy.deepcopy(e)))
 
 
+def _poly(e: ast.AST) -> Optional[Dict[Tuple[str, ...], int]]:
+    """the offset expression as a polynomial (monomial = sorted tuple of symbol texts -> integer coefficient) over names, attribute
+    chains and constant subscripts; None when it contains anything else (calls, division, ...)"""
+    if isinstance(e, ast.Constant) and isinstance(e.value, int) and not isinstance(e.value, bool):
+        return {(): e.value} if e.value else {}
+    if isinstance(e, (ast.Name, ast.Attribute)) or (isinstance(e, ast.Subscript) and isinstance(e.slice, ast.Constant)):
+        return {(norm(e),): 1}
+    if isinstance(e, ast.UnaryOp) and isinstance(e.op, ast.USub):
+        q = _poly(e.operand)
+        return None if q is None else {m: -c for m, c in q.items()}
+    if isinstance(e, ast.BinOp) and isinstance(e.op, (ast.Add, ast.Sub, ast.Mult)):
+        a_, b_ = _poly(e.left), _poly(e.right)
+        if a_ is None or b_ is None:
+            return None
+        out: Dict[Tuple[str, ...], int] = {}
+        if isinstance(e.op, ast.Mult):
+            for m1, c1 in a_.items():
+                for m2, c2 in b_.items():
+                    m = tuple(sorted(m1 + m2))
+                    out[m] = out.get(m, 0) + c1 * c2
+        else:
+            sign = 1 if isinstance(e.op, ast.Add) else -1
+            out = dict(a_)
+            for m2, c2 in b_.items():
+                out[m2] = out.get(m2, 0) + sign * c2
+        return {m: c for m, c in out.items() if c}
+    return None
+
+
 def gather(repo: Repo, rep: Report) -> None:
     mod = repo.mod(ARRAY)
     fn = mod.func("Array2D._getitem_impl")
@@ -309,6 +338,12 @@ def gather(repo: Repo, rep: Report) -> None:
             good = f is not None and len(prods) == 1 and "self.shape[1]" in strides[0] and f[prods[0]] == 1 and len(
                 [s for s in L.symbols(f) if s not in prods]
             ) == 1 and L.cval(f) == 0
+            pl = _poly(sl)
+            if not good and pl is not None and any("self.shape[1]" in m for m in pl):
+                # written with the stride distributed or hoisted, e.g. (y0 + dy * r) * width + (x0 + dx * c): affine in shape[1] with a
+                # non-trivial part on either side, and shape[0] nowhere (what is selected is SLC-G's business)
+                good = all(m.count("self.shape[1]") <= 1 and "self.shape[0]" not in m for m in pl) and \
+                    any("self.shape[1]" not in m for m in pl)
             if good:
                 rep.ok("SLC-3", f"self.data[{norm(node.slice)}] is row-major with stride self.shape[1]")
             elif f is None or any(L.SYMINFO.get(str(s_), ("",))[0] not in ("mul", "") and "(" in str(s_) for s_ in L.symbols(f)):
